@@ -25,80 +25,33 @@ def check(ctx, rule="R8", key_prefix="recursion", roots=None):
         if len(fns) != 1:
             # a cycle through static helpers of one function: expand the helpers into it and treat the
             # result as direct recursion (the guard and the growing argument are then in one body)
-            f = None
-            for cand in fns:
+            # (any function of the cycle whose expanded body carries the guard bounds the whole cycle)
+            cands = []
+            for cand in sorted(fns, key=lambda g: g.name):
                 others = [g for g in fns if g is not cand]
-                if all(g.static and g.file == cand.file for g in others):
+                if all(g.file == cand.file for g in others):
                     v = P.inlined(cand, 3)
                     if v.calls(cand.name) and not any(v.calls(g.name) for g in others):
-                        f = v
-                        break
+                        cands.append(v)
+            f = cands[0] if cands else None
+            alts = cands[1:]
             if f is None:
                 ctx.inconclusive(rule, "%s|%s" % (key_prefix, "+".join(names)), P.rel(fns[0].file),
                                  "mutual recursion %s: no guard idiom known" % names)
                 continue
         else:
             f = fns[0]
+            alts = []
         key = "%s|%s:%s" % (key_prefix, P.rel(f.file), f.name)
-        calls = f.calls(f.name)
-        cz = Canon(f, inline=False)
-        pn = [p["n"] for p in f.params]
-        verdict = None
-        detail = ""
-        for pi, p in enumerate(f.params):
-            if "*" in p["t"]:
-                continue
-            # guard on this parameter at the top, with an exit
-            guard = None
-            for s in f.body.walk():
-                if s.k == "IfStmt":
-                    kids = [x for x in s.c if x is not None]
-                    t = cz(kids[0])
-                    if t[0] == "bin" and t[1] in ("<=", "<") and t[3] == ("param", pi, p["t"].replace("const ", "")) \
-                            or (t[0] == "bin" and t[1] in ("<=", "<") and isinstance(t[3], tuple) and t[3][:2] == ("param", pi)):
-                        if _exits(kids[1], f):
-                            guard = (s, t)
-                            break
-            if guard is None:
-                continue
-            gnode, gt = guard
-            if f.cfg is not None:
-                first = min((x for x in gnode.walk() if x.i in f.cfg.where()), key=lambda x: x.i)
-                dominated = all(f.cfg.node_dominates(first, c) for c in calls)
-            else:
-                # helper-expanded view (no CFG): the guard is a top-level statement of the body that
-                # precedes, in program order, every statement containing a recursive call
-                top = f.body.kids()
-                order = {id(n_): k_ for k_, st_ in enumerate(top) for n_ in st_.walk()}
-                dominated = gnode in top and all(order.get(id(c), -1) > top.index(gnode) for c in calls)
-            bound = gt[2]
-            const_bound = bound[0] == "int"
-            # recursive calls pass a strictly larger value
-            growing = True
-            for c in calls:
-                a = c.args()[pi]
-                t = Canon(f)(a)
-                ok = any(s_ == ("bin", "+", ("int", 1), ("param", pi, t_p)) or s_ == ("bin", "+", ("param", pi, t_p), ("int", 1))
-                         for s_ in subtrees(t) for t_p in [p["t"].replace("const ", "")]) or \
-                    (t[0] == "bin" and t[1] == "+" and ("param", pi, p["t"].replace("const ", "")) in (t[2], t[3])
-                     and any(x[0] == "int" and x[1] > 0 for x in (t[2], t[3])))
-                if not ok:
-                    # a local initialised from param + k
-                    x = a.strip_casts()
-                    if x.k == "DeclRefExpr" and x.get("dk") == "local":
-                        inits = [i for n_ in f.body.walk() if n_.k == "DeclStmt"
-                                 for d, i in zip(n_.get("decls", []), n_.c) if d.get("d") == x.get("d") and i is not None]
-                        ok = bool(inits) and any(
-                            s_[0] == "bin" and s_[1] == "+" and isinstance(s_[3], tuple) and s_[3][:2] == ("param", pi)
-                            or (s_[0] == "bin" and s_[1] == "+" and isinstance(s_[2], tuple) and s_[2][:2] == ("param", pi))
-                            for s_ in subtrees(Canon(f, inline=False)(inits[0])))
-                growing = growing and ok
-            if dominated and growing:
-                verdict = True
-                detail = "guard `%s` on parameter `%s` (%s bound) precedes all %d recursive calls, which pass a larger value" % (
-                    src([x for x in gnode.c if x is not None][0]), p["n"], "constant" if const_bound else "input-size", len(calls))
+        verdict, detail, wit = _bounded(P, f)
+        for alt in alts:
+            if verdict:
                 break
-            detail = "guard on `%s` found but dominated=%s growing=%s" % (p["n"], dominated, growing)
+            v2, d2, w2 = _bounded(P, alt)
+            if v2:
+                f, verdict, detail, wit = alt, v2, d2, w2
+                key = "%s|%s:%s" % (key_prefix, P.rel(f.file), f.name)
+        calls = [wit] if wit is not None else []
         if verdict:
             ctx.ok(rule, key, P.where(f.body), "recursion of %s is bounded" % f.name, detail)
         else:
@@ -106,3 +59,67 @@ def check(ctx, rule="R8", key_prefix="recursion", roots=None):
                     "%s calls itself without a depth or progress guard (one stack frame per nested input element)" % f.name,
                     detail or "no parameter is compared with a bound before the recursive call")
     return n
+
+
+def _bounded(P, f):
+    """(verdict, detail, witness call or None) for direct recursion of f (possibly a helper-expanded view)."""
+    calls = f.calls(f.name)
+    cz = Canon(f, inline=False)
+    pn = [p["n"] for p in f.params]
+    verdict = None
+    detail = ""
+    for pi, p in enumerate(f.params):
+        if "*" in p["t"]:
+            continue
+        # guard on this parameter at the top, with an exit
+        guard = None
+        for s in f.body.walk():
+            if s.k == "IfStmt":
+                kids = [x for x in s.c if x is not None]
+                t = cz(kids[0])
+                if t[0] == "bin" and t[1] in ("<=", "<") and t[3] == ("param", pi, p["t"].replace("const ", "")) \
+                        or (t[0] == "bin" and t[1] in ("<=", "<") and isinstance(t[3], tuple) and t[3][:2] == ("param", pi)):
+                    if _exits(kids[1], f):
+                        guard = (s, t)
+                        break
+        if guard is None:
+            continue
+        gnode, gt = guard
+        if f.cfg is not None:
+            first = min((x for x in gnode.walk() if x.i in f.cfg.where()), key=lambda x: x.i)
+            dominated = all(f.cfg.node_dominates(first, c) for c in calls)
+        else:
+            # helper-expanded view (no CFG): the guard is a top-level statement of the body that
+            # precedes, in program order, every statement containing a recursive call
+            top = f.body.kids()
+            order = {id(n_): k_ for k_, st_ in enumerate(top) for n_ in st_.walk()}
+            dominated = gnode in top and all(order.get(id(c), -1) > top.index(gnode) for c in calls)
+        bound = gt[2]
+        const_bound = bound[0] == "int"
+        # recursive calls pass a strictly larger value
+        growing = True
+        for c in calls:
+            a = c.args()[pi]
+            t = Canon(f)(a)
+            ok = any(s_ == ("bin", "+", ("int", 1), ("param", pi, t_p)) or s_ == ("bin", "+", ("param", pi, t_p), ("int", 1))
+                     for s_ in subtrees(t) for t_p in [p["t"].replace("const ", "")]) or \
+                (t[0] == "bin" and t[1] == "+" and ("param", pi, p["t"].replace("const ", "")) in (t[2], t[3])
+                 and any(x[0] == "int" and x[1] > 0 for x in (t[2], t[3])))
+            if not ok:
+                # a local initialised from param + k
+                x = a.strip_casts()
+                if x.k == "DeclRefExpr" and x.get("dk") == "local":
+                    inits = [i for n_ in f.body.walk() if n_.k == "DeclStmt"
+                             for d, i in zip(n_.get("decls", []), n_.c) if d.get("d") == x.get("d") and i is not None]
+                    ok = bool(inits) and any(
+                        s_[0] == "bin" and s_[1] == "+" and isinstance(s_[3], tuple) and s_[3][:2] == ("param", pi)
+                        or (s_[0] == "bin" and s_[1] == "+" and isinstance(s_[2], tuple) and s_[2][:2] == ("param", pi))
+                        for s_ in subtrees(Canon(f, inline=False)(inits[0])))
+            growing = growing and ok
+        if dominated and growing:
+            verdict = True
+            detail = "guard `%s` on parameter `%s` (%s bound) precedes all %d recursive calls, which pass a larger value" % (
+                src([x for x in gnode.c if x is not None][0]), p["n"], "constant" if const_bound else "input-size", len(calls))
+            break
+        detail = "guard on `%s` found but dominated=%s growing=%s" % (p["n"], dominated, growing)
+    return verdict, detail, (calls[0] if calls else None)
